@@ -1,0 +1,30 @@
+package scheduler
+
+// Event kinds reported to the verification hook (build tag "verif").
+// Without the tag every verif* function is an empty stub.
+const (
+	verifWStart = iota
+	verifWGot
+	verifWSkip
+	verifWRun
+	verifWEnd
+	verifWPrePost
+	verifWPosted
+	verifWDie
+	verifWExit
+	verifCEnqSend
+	verifCEnqSent
+	verifCWaitCalled
+	verifCWaitRetCtx
+	verifCWaitRetFin
+	verifLIter
+	verifLDispatched
+	verifLEnqRecv
+	verifLEnqClosed
+	verifLDoneRecv
+	verifLTick
+	verifLReturn
+	verifLDrained
+	verifLFinished
+	verifNewSched
+)
